@@ -271,7 +271,9 @@ func applyAlias(node *CandidateNode, alias *CandidateNode, aliasIndex int, newCo
 			}
 			continue
 		}
-		err := overrideEntry(node, keyNode, valueNode, aliasIndex, newContent)
+		// the entries of the map being merged in belong to the anchored map: explode copies of them,
+		// not the anchored map itself (it would lose the anchors other aliases still refer to)
+		err := overrideEntry(node, keyNode.Copy(), valueNode.Copy(), aliasIndex, newContent)
 		if err != nil {
 			return err
 		}
